@@ -489,6 +489,11 @@ def gen_cases(ck, dims_small, flat_max, n_streams):
             else:
                 vals.append(rng.getrandbits(64))
         streams.append({"flat": f, "dim": d, "nobj": nobj, "vals": vals})
+    # deterministic larger dimensions with pairwise distinct packed values: packed positions beyond 255 (dim >= 23) exist only there
+    for d, nobj in ((16, 2), (22, 1), (23, 1), (23, 2), (24, 1), (33, 1)) + (((46, 1), (64, 1)) if n_streams > 100 else ()):
+        f = tri(d) + (1 if d % 2 else 0)
+        vals = [(k * 0x9E3779B97F4A7C15 + 1) & 0xFFFFFFFFFFFFFFFF for k in range(f * nobj)]
+        streams.append({"flat": f, "dim": d, "nobj": nobj, "vals": vals})
     return grid, streams
 
 
